@@ -809,7 +809,11 @@ def World.step (w : World) (line : String) : World :=
   | "loadq" => w.onLoadQ toks
   | "rputfail" =>
     let k := w.key (peerNum (toks.getD 1 ""))
-    { w with rputFail := (k, natOr (toks.getD 2 "") 1) :: w.rputFail.filter (fun (y : Nat × Nat) => y.1 != k) }
+    -- (the round ends early at the failed put, before its status fix-up: the progress events of its entries
+    -- may be handled after the store has gone quiet - under load, after an observation - and lift the
+    -- status to len/len then; both values satisfy C19, the lift is accepted once, as after a Load)
+    { w with rputFail := (k, natOr (toks.getD 2 "") 1) :: w.rputFail.filter (fun (y : Nat × Nat) => y.1 != k),
+             lateLoad := k :: w.lateLoad.filter (· != k) }
   | "stats" =>
     -- C11: whenever the replicator is at rest every fetch slot is free again and nothing is counted as
     -- in progress (a slot that is never given back starves every later request once all are gone)
